@@ -216,7 +216,15 @@ def _run_one(key):
         out["error"] = "HarnessError: %s" % (e,)
     except BaseException as e:  # noqa
         out["status"] = "harness_error"
-        out["error"] = "%s: %s\n%s" % (type(e).__name__, e, traceback.format_exc()[-2500:])
+        try:
+            out["error"] = "%s: %s\n%s" % (type(e).__name__, e, traceback.format_exc()[-2500:])
+        except BaseException:  # noqa  (the message may hold a symbolic string that cannot be formatted)
+            tb = e.__traceback__
+            frames = []
+            while tb is not None:
+                frames.append("%s:%d" % (tb.tb_frame.f_code.co_filename, tb.tb_lineno))
+                tb = tb.tb_next
+            out["error"] = "%s (message not printable) at %s" % (type(e).__name__, " <- ".join(frames[-6:]))
     out["wall_s"] = round(time.time() - t0, 2)
     out["covered"] = sorted(hook.COVERED)
     return out
